@@ -9,13 +9,18 @@ import Penguin.Lemmas.MuxBasic
 
 namespace Penguin.Mux
 
-/-- `Link.step (.write d)`: BrokenPipe once finished; an empty write is a no-op; without credit the
+/-- `Link.step (.write d)`: BrokenPipe once finished; an empty write is a no-op (either way only the
+    'a write call is waiting' flag is cleared); without credit the
     call is pending and only the waker registration changes; otherwise exactly one unit of credit is
     taken and exactly one `Push` with the whole payload is queued. -/
 theorem appWrite_glue (e : EP) (h i : Nat) (o : Obj) (d : Bytes)
     (hh : e.handles[h]? = some i) (ho : e.objs[i]? = some o) :
-    (o.finishSent = true → appWrite e h d = (e, .brokenPipe)) ∧
-    (o.finishSent = false → d = [] → appWrite e h d = (e, .wrote 0)) ∧
+    (o.finishSent = true →
+        (appWrite e h d).2 = .brokenPipe ∧ (appWrite e h d).1.outq = e.outq ∧
+        (appWrite e h d).1.objs[i]? = some { o with parked := false }) ∧
+    (o.finishSent = false → d = [] →
+        (appWrite e h d).2 = .wrote 0 ∧ (appWrite e h d).1.outq = e.outq ∧
+        (appWrite e h d).1.objs[i]? = some { o with parked := false }) ∧
     (o.finishSent = false → d ≠ [] → o.credit = 0 →
         (appWrite e h d).2 = .pending ∧ (appWrite e h d).1.outq = e.outq ∧
         (appWrite e h d).1.objs[i]? = some { o with parked := true, woken := false }) ∧
@@ -25,8 +30,8 @@ theorem appWrite_glue (e : EP) (h i : Nat) (o : Obj) (d : Bytes)
         (appWrite e h d).1.objs[i]? = some { o with credit := o.credit - 1, parked := false }) := by
   have hobj : e.handleObj h = some (i, o) := by simp [EP.handleObj, hh, ho]
   refine ⟨?_, ?_, ?_, ?_⟩
-  · intro hf; simp [appWrite, hobj, hf]
-  · intro hf hd; subst hd; simp [appWrite, hobj, hf]
+  · intro hf; simp [appWrite, hobj, hf, modObj_get_self, ho]
+  · intro hf hd; subst hd; simp [appWrite, hobj, hf, modObj_get_self, ho]
   · intro hf hd hc
     have hde : d.isEmpty = false := by cases d <;> simp_all
     simp [appWrite, hobj, hf, hde, hc, modObj_get_self, ho]
